@@ -288,6 +288,11 @@ example : ∃ B', apply klS klA (diff klS true klA klB) = .ok B' ∧ goodT klS B
     (by decide +kernel)
 example : K13.goodT klS (K13.keyedOK klS) klA = true ∧
     K13.exactDiff klS (K13.keyedOK klS) klA (diff klS true klA klB) = true := by decide +kernel
+/-- the three enumerations the generator uses (tools/vlib/treegen.py `ENUMS`) have distinct values, so every generated schema is
+`schemaOK` (keys are leaves by construction) -/
+example : K13.tyOK (.enumeration [("a", 0), ("b", 1), ("c", 2)]) = true ∧
+    K13.tyOK (.enumeration [("zero", 0), ("five", 5), ("neg", -3), ("big", 1000)]) = true ∧
+    K13.tyOK (.enumeration [("x", 7), ("y", 3)]) = true := by decide
 /-- a non-canonical key value (`007`) is what `canonT` excludes: the `sort` callback cannot tell it from `7` -/
 example : K13.canonT klS [klI "007" []] = false ∧ wfForest klS [klI "007" []] = true := by decide +kernel
 
